@@ -97,7 +97,15 @@ func StatusVars(t *rapid.T, all bool) []refenc.StatusVar {
 			u, h := str(20), str(20)
 			p = append(append([]byte{byte(len(u))}, u...), append([]byte{byte(len(h))}, h...)...)
 		case 12:
+			if rapid.IntRange(0, 3).Draw(t, "sv_ndb_over") == 0 {
+				// more than MAX_DBS_IN_EVENT_MTS databases: the count byte is 254 and NO names follow
+				p = []byte{254}
+				break
+			}
 			n := rapid.IntRange(0, 3).Draw(t, "sv_ndb")
+			if rapid.IntRange(0, 5).Draw(t, "sv_ndb_max") == 0 {
+				n = 16
+			}
 			p = []byte{byte(n)}
 			for i := 0; i < n; i++ {
 				p = append(append(p, str(10)...), 0)
